@@ -16,6 +16,10 @@ import (
 // failing random source (at read Param(0); 0 = none) gives an error instead of a number.
 func HRandomNumber() {
 	k := vr.Param(0)
+	once := k == 4 // one call only, with the rejection loop followed further (job option unwind_assume_n)
+	if once {
+		k = 0
+	}
 	vr.FaultAt(k)
 	n0 := len(vr.RandAllLog())
 	x, err := GenerateRandomNumber()
@@ -34,6 +38,9 @@ func HRandomNumber() {
 	log := vr.RandAllLog()
 	vr.Assert("c09.from-source", vFromSource(x, log[n0:]))
 	n1 := len(log)
+	if once {
+		return
+	}
 	y, err := GenerateRandomNumber()
 	if k > 0 && vr.RandReads() >= k {
 		vr.Assert("c09.fault", err != nil && y == nil)
